@@ -100,11 +100,26 @@ def run(rep):
                 dims = [1, int(rng.integers(1, 3)), int(rng.integers(6, 9))]
                 rng.shuffle(dims)
                 E = rng.integers(0, 7, size=dims)
+                ends = None
+                if k % 2 == 0:
+                    # ... deliberately: the short way round is steep, the long way round is flat
+                    dims = [1, 1, int(rng.integers(7, 10))]
+                    ax = int(rng.integers(0, 3))
+                    dims[ax], dims[2] = dims[2], dims[ax]
+                    E = np.zeros(dims, dtype=int)
+                    gap = int(rng.integers(2, 4))
+                    idx = [0, 0, 0]
+                    for q in range(1, gap):
+                        idx[ax] = q
+                        E[tuple(idx)] = int(rng.integers(4, 7))
+                    stop_ = [0, 0, 0]
+                    stop_[ax] = gap
+                    ends = ([0, 0, 0], stop_)
             else:
                 E = grid_drive.random_grid(rng, maxdims=(2, 2, 3), p_block=float(rng.choice([0.0, 0.15])))
             signal.alarm(20)
             try:
-                r_ = grid_drive.npaths_record(rng, b, E, bool(big and k % 2), quick_second=big)
+                r_ = grid_drive.npaths_record(rng, b, E, bool(big and k % 2), quick_second=big, ends=ends if big else None)
             except _Budget:
                 skipped['budget-exceeded'] = skipped.get('budget-exceeded', 0) + 1
                 if skipped['budget-exceeded'] >= 3:
